@@ -172,6 +172,8 @@ def run(ctx):
     aps = summarize(prog, ap)
     sp = ap.params[0]
     upd = ("attr", ("param", sp), "_updated_properties")
+    from ..helpers import pc_lookup, term_lookup
+    atl, apc = term_lookup(prog, ap), pc_lookup(prog, ap)
 
     def says_empty(c, truth):
         """(c is truth) states that the change set is empty"""
@@ -214,11 +216,11 @@ def run(ctx):
     ctx.ob("C16.b", ap.qual, len(sends) == 1, "apply has exactly one property-write site", func=ap.qual, file=ap.module.rel, construct="_apply_properties call sites",
            fail=f"{len(sends)} property-write sites in apply: a change is sent {len(sends)} times")
     for n in sends:
-        pcn = aps.ta.env_at[n].pc if n in aps.ta.env_at else ()
+        pcn = (aps.ta.env_at[n].pc if n in aps.ta.env_at else None) or apc(n) or ()          # (also for a send that sits in a helper of apply)
         nonempty = any(says_empty(c, not truth) for c, truth in pcn)
         ctx.ob("C16.b", ap.qual, nonempty, "the property write is sent only when the change set is non-empty", func=ap.qual, file=ap.module.rel, node=n,
                detail={"pc": [show(c)[:80] + f" is {t}" for c, t in pcn]}, fail="a property write is sent although no property changed")
-        t = aps.ta.terms_at.get(n.value.value if isinstance(n.value, ast.Await) else n.value)
+        t = atl(n.value.value if isinstance(n.value, ast.Await) else n.value)
         arg = t[2][-1] if t is not None and t[0] == "call" else None
         a_ok = False
         if arg is not None and arg[0] == "comp" and arg[1] == "dict":
@@ -249,7 +251,7 @@ def run(ctx):
     # every completion: the properties were sent or the change set was tested empty on the way ("settled" on every path), and
     # no path sends without clearing afterwards ("unsettled" on no path) - both are insensitive to how the paths are merged
     def settled_branch(test, truth, st):
-        t = aps.ta.terms_at.get(test)
+        t = atl(test)
         return ["settled"] if t is not None and says_empty(t, truth) else []
     settled = EventAnalysis(must=True, on_stmt=lambda node, st: ["settled"] if "sent" in on_stmt(node, st) else [], on_branch=settled_branch)
     c_set = run_events(prog, ap, settled)
